@@ -153,7 +153,7 @@ Print Assumptions C07_concludes_needs_fairness.
 (* non-vacuity: under the hypotheses exchanges do take place - a concrete schedule with a lost
    empty ACK, a retransmission, a duplicated separate response and a FAIL verdict yields one
    handler call for the token, one RST, then an ACK-less duplicate answered by RST again *)
-Example C07_nonvacuous :
+Theorem C07_nonvacuous :
   let t := ex_sys_trace (ex_cfg_guarded 4) (ex_sys_init 100 7000)
              [ExASend 1; ExADelS 0; ExADropC 1; ExATimer; ExADupC 0; ExADelC 0 false;
               ExADelC 0 true; ExADelS 0; ExADelS 0; ExADelS 0] in
@@ -161,4 +161,5 @@ Example C07_nonvacuous :
   In (ExRx (ExConR 7001 1) false, [ExResp 0 7001 1 (-1); ExTx (ExRst 7001)]) t /\
   In (ExRx (ExConR 7001 1) true, [ExTx (ExRst 7001)]) t /\
   accepts_c07 t = true.
-Proof. vm_compute. repeat split; auto 10. Qed.
+Proof. exact ex_nonvacuous. Qed.
+Print Assumptions C07_nonvacuous.
